@@ -220,6 +220,43 @@ func c15NoiseFunc(c *kit.Ctx, r2 *kit.Rule, writers map[string]*pointWriter, f *
 		return ok && b.Kind() == types.Bool
 	}
 
+	// keepsOf: the keep sites of a compaction loop,
+	// <slice>[j] = <value var>   or   X = append(X, <value var>)
+	type keepSite struct {
+		as  *ast.AssignStmt
+		val types.Object
+	}
+	keepsOf := func(l *c15Loop) []keepSite {
+		var keeps []keepSite
+		isVal := func(e ast.Expr) types.Object {
+			if o := kit.ObjOf(info, e); o != nil && l.aliases[o] {
+				return o
+			}
+			return nil
+		}
+		ast.Inspect(l.rs.Body, func(n ast.Node) bool {
+			as, ok := n.(*ast.AssignStmt)
+			if !ok || len(as.Lhs) != 1 || len(as.Rhs) != 1 {
+				return true
+			}
+			if ix, ok := ast.Unparen(as.Lhs[0]).(*ast.IndexExpr); ok && l.t.is(ix.X) {
+				if o := isVal(as.Rhs[0]); o != nil {
+					keeps = append(keeps, keepSite{as, o})
+				}
+			}
+			if call, ok := ast.Unparen(as.Rhs[0]).(*ast.CallExpr); ok {
+				if bi, ok := kit.Callee(info, call).(*types.Builtin); ok && bi.Name() == "append" && len(call.Args) == 2 &&
+					kit.SameExpr(info, as.Lhs[0], call.Args[0]) {
+					if o := isVal(call.Args[1]); o != nil {
+						keeps = append(keeps, keepSite{as, o})
+					}
+				}
+			}
+			return true
+		})
+		return keeps
+	}
+
 	// ---- (a) key rewrites
 	ast.Inspect(f.Body, func(n ast.Node) bool {
 		as, ok := n.(*ast.AssignStmt)
@@ -231,10 +268,20 @@ func c15NoiseFunc(c *kit.Ctx, r2 *kit.Rule, writers map[string]*pointWriter, f *
 			return true
 		}
 		l := loopOf(as)
+		viaCopy := false
 		if o := kit.ObjOf(info, sel.X); l != nil && o != nil && l.aliases[o] {
-			return true // assignment to the loop's copy: no effect on the export
+			// assignment to the loop's copy: no effect on the export, unless the
+			// copy is what the loop keeps afterwards (filter into a result slice)
+			for _, k := range keepsOf(l) {
+				if k.val == o && k.as.Pos() > as.End() {
+					viaCopy = true
+				}
+			}
+			if !viaCopy {
+				return true
+			}
 		}
-		if l == nil || !inSlice(l, sel.X) {
+		if l == nil || !(viaCopy || inSlice(l, sel.X)) {
 			r2.Ob(f, as, "key rewrite of ?", "the exported key is rewritten to B only when it equals A, and the store's writer maps B back to A").
 				Undecided("%s is not a rewrite of the current element of a loop over a node's Points / EdgePoints", f.Str(as))
 			return true
@@ -314,25 +361,10 @@ func c15NoiseFunc(c *kit.Ctx, r2 *kit.Rule, writers map[string]*pointWriter, f *
 			continue
 		}
 		elem := isElem(l)
-		isVal := func(e ast.Expr) bool { o := kit.ObjOf(info, e); return o != nil && l.aliases[o] }
-		// keep sites: <slice>[j] = <value var>   or   X = append(X, <value var>)
 		var keeps []ast.Node
-		ast.Inspect(l.rs.Body, func(n ast.Node) bool {
-			as, ok := n.(*ast.AssignStmt)
-			if !ok || len(as.Lhs) != 1 || len(as.Rhs) != 1 {
-				return true
-			}
-			if ix, ok := ast.Unparen(as.Lhs[0]).(*ast.IndexExpr); ok && l.t.is(ix.X) && isVal(as.Rhs[0]) {
-				keeps = append(keeps, as)
-			}
-			if call, ok := ast.Unparen(as.Rhs[0]).(*ast.CallExpr); ok {
-				if bi, ok := kit.Callee(info, call).(*types.Builtin); ok && bi.Name() == "append" && len(call.Args) == 2 && isVal(call.Args[1]) &&
-					kit.SameExpr(info, as.Lhs[0], call.Args[0]) {
-					keeps = append(keeps, as)
-				}
-			}
-			return true
-		})
+		for _, k := range keepsOf(l) {
+			keeps = append(keeps, k.as)
+		}
 		if len(keeps) == 0 {
 			continue
 		}
